@@ -72,6 +72,11 @@ type fakeCtl struct {
 	byID  map[string]*sessRec
 	log   []loginRec
 	seq   int
+	// run-id monitor: the id of the last accepted login must come back in every later Login of this frpc
+	ids         []string // run ids handed out, in order
+	confirmed   int      // index of the latest id the client provably received (-1: none)
+	lastWhat    string   // what the previous login attempt got: accept | refuse | silent | cut
+	ridReported bool
 	// every login before this instant is refused (duration-based refusal)
 	refuseUntil int64
 	// every session accepted before this instant is dropped right after the login reply
@@ -127,6 +132,26 @@ func (f *fakeCtl) onLogin(fs *h.FakeServer, l *msg.Login) (*msg.LoginResp, bool)
 		f.queue = f.queue[1:]
 	}
 	f.seq++
+	if f.confirmed >= 0 && !f.ridReported {
+		// the client has provably received run id ids[confirmed] (it talked on that session): from then on every
+		// Login must carry that id or a later one the server handed out (whose reply may or may not have arrived)
+		idx := -1
+		for i, id := range f.ids {
+			if id == l.RunID {
+				idx = i
+			}
+		}
+		if idx < f.confirmed {
+			f.ridReported = true
+			key, after := "run-id-not-resent-on-relogin", "the previous attempt got: "+f.lastWhat
+			if f.lastWhat == "refuse" {
+				key, after = "run-id-forgotten-after-refused-login", "the previous attempt was answered with LoginResp{Error}"
+			}
+			want, got, n := f.ids[f.confirmed], l.RunID, f.seq
+			defer f.c.Violation(key, "login attempt #%d of this frpc carries run id %q although it had been given %q and used that session (%s): frps cannot recognise it as the same client and replace its stale session", n, got, want, after)
+		}
+	}
+	f.lastWhat = b.Login
 	f.log = append(f.log, loginRec{T: now, What: b.Login})
 	if b.Login != "accept" {
 		f.mu.Unlock()
@@ -143,6 +168,7 @@ func (f *fakeCtl) onLogin(fs *h.FakeServer, l *msg.Login) (*msg.LoginResp, bool)
 		return nil, false
 	}
 	id := fmt.Sprintf("b%dx%d", f.idx, f.seq)
+	f.ids = append(f.ids, id)
 	rec := &sessRec{N: f.seq, Beh: b, LoginAt: h.Now(), regs: map[string]int64{}}
 	f.sess = append(f.sess, rec)
 	f.byID[id] = rec
@@ -176,6 +202,7 @@ func (f *fakeCtl) onSession(s *h.FakeSession) {
 		_ = s.Send(&msg.ReqWorkConn{})
 	}
 	silent := func() bool { return rec.silentFrom != 0 }
+	confirmedOnce := false
 	for {
 		m, err := s.Box.Wait(time.Hour, func(msg.Message) bool { return true })
 		now := h.Now()
@@ -185,6 +212,16 @@ func (f *fakeCtl) onSession(s *h.FakeSession) {
 			rec.mu.Unlock()
 			f.c.Ev("fake-session-closed", "session", rec.N, "t", now, "by_fake", rec.closedByFake)
 			return
+		}
+		if !confirmedOnce {
+			confirmedOnce = true
+			f.mu.Lock()
+			for i, id := range f.ids {
+				if id == s.RunID && i > f.confirmed {
+					f.confirmed = i
+				}
+			}
+			f.mu.Unlock()
 		}
 		rec.mu.Lock()
 		if rec.goSilent && rec.silentFrom == 0 {
@@ -433,7 +470,7 @@ func (e *bEnv) bring(fam string) ([]int, bool) {
 	var err error
 	for attempt := 0; attempt < 4; attempt++ {
 		ports := pa.Block(2)
-		e.fc = &fakeCtl{c: e.c, idx: e.c.Idx, byID: map[string]*sessRec{}}
+		e.fc = &fakeCtl{c: e.c, idx: e.c.Idx, byID: map[string]*sessRec{}, confirmed: -1}
 		e.fs, err = h.StartFakeServer(h.FakeServerOpts{Port: ports[0], Token: token, TCPMux: e.mux,
 			OnLogin:   e.fc.onLogin,
 			OnSession: e.fc.onSession,
